@@ -5,6 +5,8 @@ package main
 import (
 	"bytes"
 	"encoding/json"
+	"fmt"
+	"math"
 
 	"github.com/Azbesciak/RealDecisionMaker/lib/model"
 )
@@ -92,6 +94,40 @@ func resultOf(resp []byte) json.RawMessage {
 func init() {
 	props["C08"] = func(o *Out, r *Rng, n int, thorough bool) {
 		names := []string{"s0", "s1", "s2", "s3"}
+		// frequency sanity (supporting evidence, 6-sigma band): over many seeds an entry with probability p
+		// at position k fires about p of the time
+		trials := 4000
+		if thorough {
+			trials = 20000
+		}
+		for _, p := range []float64{0.25, 0.5, 0.75} {
+			for _, pos := range []int{0, 2} {
+				fires := 0
+				for t := 0; t < trials; t++ {
+					body := trivialBody()
+					body["biasApplyRandomSeed"] = r.Int63n(1 << 40)
+					var bl []interface{}
+					for i := 0; i <= pos; i++ {
+						bl = append(bl, J{"name": "s0", "applyProbability": p, "props": J{}})
+					}
+					body["biases"] = bl
+					var log []string
+					stubs := model.BiasMap{"s0": &stubBias{"s0", &log}}
+					js, _ := json.Marshal(body)
+					var dm model.DecisionMaker
+					json.Unmarshal(js, &dm)
+					choice := dm.MakeDecision(funcs, biasListeners, &stubs, seededGen)
+					if choice.Biases[pos].(model.BiasParams).Props != nil {
+						fires++
+					}
+				}
+				sigma := math.Sqrt(p * (1 - p) * float64(trials))
+				ok := math.Abs(float64(fires)-p*float64(trials)) <= 6*sigma
+				o.Oracle(Meta{Stage: "frequency", Input: J{"probability": p, "position": pos, "seeds": trials, "fired": fires}, Key: "freq" + itoa(pos) + fmt.Sprint(p)}, ok,
+					fmt.Sprintf("probability %v at position %d fired %d times in %d seeds (outside the 6-sigma band)", p, pos, fires, trials))
+				o.count("frequency-runs")
+			}
+		}
 		for c := 0; c < n; c++ {
 			o.Cases++
 			switch c % 3 {
